@@ -178,8 +178,39 @@ func (x *Exec) lockAccess(st *State, sname, path, ref, what string) {
 	x.lockAccesses++
 	if st.held != 1 {
 		x.lockViolations = append(x.lockViolations, fmt.Sprintf("%s of %s without holding Raft.mu at %s", what, key, x.e.pos(x.curPos)))
+		return
+	}
+	// Fields that Stop() touches without the lock once it has published the Shutdown state: holding
+	// the lock does not protect an access to them, knowing that the node is not shut down does.
+	if x.e.db.StopOwned[key] && !x.e.db.StopExempt[x.top.Key] {
+		var recv *Val
+		for fr := x.frame; fr != nil; fr = fr.parent {
+			if fr.recv != nil {
+				recv = fr.recv
+			}
+		}
+		if recv == nil {
+			return
+		}
+		if stopClause == nil {
+			ce, err := ParseCExpr("r.state != Shutdown")
+			if err != nil {
+				panic(err)
+			}
+			stopClause = &Clause{Kind: "assert", Label: "not-after-stop", Expr: ce, Src: "r.state != Shutdown"}
+		}
+		g := x.cevalBool(stopClause.Expr, x.invEnv(st, nil, recv), stopClause)
+		for _, p := range st.pc {
+			if p == g {
+				return
+			}
+		}
+		x.oblige(st, x.top.Key+".not-after-stop", "lock", x.curPos,
+			fmt.Sprintf("%s of %s, which Stop() accesses without the lock after publishing the Shutdown state: only where r.state != Shutdown is known", what, key), g)
 	}
 }
+
+var stopClause *Clause
 
 // assumeTimeless: the `assume` clauses of the function under verification are facts about the
 // environment that hold at any time (A-ES, A-LM, A-NOOVF, A-IOOK ...): they are assumed again for
